@@ -28,7 +28,7 @@ impl Default for SchemaGenCfg {
 			allow_recursion: true,
 			allow_big_fixed_decimal: false,
 			allow_inert_logical: true,
-			allow_duration_in_union: false,
+			allow_duration_in_union: true,
 		}
 	}
 }
